@@ -19,6 +19,7 @@ CONSTANTS
   EmitDyn = FALSE
   MaxHist = 5
   MaxReorders = 2
+  NewKs <- EmptySet
   NameOrder <- NameOrderA
   BuildCfgs <- BuildCfgsA
   IntegrCfgs <- IntegrCfgsNone
